@@ -1,4 +1,5 @@
 import Minimq.Proofs.Ops
+import Minimq.Proofs.Arena
 /-
 Lifting: a predicate on the session that is preserved by each primitive through which the
 operations change the session (`Closed`) holds after every program (`run_inv`) — induction over
@@ -19,10 +20,12 @@ structure Closed (P : Session → Prop) : Prop where
   activate : ∀ s sp block now, P s → P (s.activate sp block now).1
   alloc : ∀ s, P s → P s.alloc.1
   encodeConnect : ∀ s c, P s → P (s.encode (ε := SerErr) (fun cap _ => encodeConnect cap c)).1
-  encodeAfterAlloc : ∀ {ε : Type} s (enc : Nat → (Nat → Nat → Bytes) → Except ε (Nat × Bytes)), P s → P (s.alloc.1.encode enc).1
-  encodeScratch : ∀ {ε : Type} s (enc : Nat → (Nat → Nat → Bytes) → Except ε (Nat × Bytes)), P s → P (s.encode enc).1
-  enqueue : ∀ {ε : Type} s (enc : Nat → (Nat → Nat → Bytes) → Except ε (Nat × Bytes)) off len isPub s3, P s →
-    (isPub = true → s.rt.sendQuota ≠ 0) →
+  encodeAfterAlloc : ∀ {ε : Type} s (enc : Nat → (Nat → Nat → Bytes) → Except ε (Nat × Bytes)), EncOk enc → P s →
+    P (s.alloc.1.encode enc).1
+  encodeScratch : ∀ {ε : Type} s (enc : Nat → (Nat → Nat → Bytes) → Except ε (Nat × Bytes)), EncOk enc → P s →
+    P (s.encode enc).1
+  enqueue : ∀ {ε : Type} s (enc : Nat → (Nat → Nat → Bytes) → Except ε (Nat × Bytes)) off len isPub s3, EncOk enc → P s →
+    (isPub = true → s.rt.sendQuota ≠ 0) → (s.alloc.1.encode enc).2 = .ok (off, len) →
     (s.alloc.1.encode enc).1.retain s.alloc.2 off len isPub = some s3 → P s3
   clearPing : ∀ s, P s → P s.clearPing
   noteActivity : ∀ s now, P s → P (s.noteActivity now)
@@ -396,7 +399,8 @@ theorem step_afterFlush (fuel : Nat) (ih : MachineInv P fuel) :
     split
     · simpa using h
     · have ha := hc.encodeAfterAlloc w.sess (fun cap _ =>
-        encodeWithOffset cap (subscribeChunks w.sess.alloc.2 (.slice r.props) r.topics) MT_Subscribe FLAGS_Subscribe) h
+        encodeWithOffset cap (subscribeChunks w.sess.alloc.2 (.slice r.props) r.topics) MT_Subscribe FLAGS_Subscribe)
+        (EncOk_encodeWithOffset _ _ _) h
       split
       · simpa using ha
       · split
@@ -405,13 +409,15 @@ theorem step_afterFlush (fuel : Nat) (ih : MachineInv P fuel) :
           · simpa using ha
           · rename_i s3 hs3
             apply i1
-            exact hc.enqueue w.sess _ _ _ false s3 h (by simp) hs3
+            rename_i _ off len hres _ _
+            exact hc.enqueue w.sess _ _ _ false s3 (EncOk_encodeWithOffset _ _ _) h (by simp) hres hs3
   | unsubPre r =>
     simp only []
     split
     · simpa using h
     · have ha := hc.encodeAfterAlloc w.sess (fun cap _ =>
-        encodeWithOffset cap (unsubscribeChunks w.sess.alloc.2 (.slice r.props) r.topics) MT_Unsubscribe FLAGS_Unsubscribe) h
+        encodeWithOffset cap (unsubscribeChunks w.sess.alloc.2 (.slice r.props) r.topics) MT_Unsubscribe FLAGS_Unsubscribe)
+        (EncOk_encodeWithOffset _ _ _) h
       split
       · simpa using ha
       · split
@@ -420,7 +426,8 @@ theorem step_afterFlush (fuel : Nat) (ih : MachineInv P fuel) :
           · simpa using ha
           · rename_i s3 hs3
             apply i1
-            exact hc.enqueue w.sess _ _ _ false s3 h (by simp) hs3
+            rename_i _ off len hres _ _
+            exact hc.enqueue w.sess _ _ _ false s3 (EncOk_encodeWithOffset _ _ _) h (by simp) hres hs3
   | publishPre r =>
     simp only []
     split
@@ -436,7 +443,7 @@ theorem step_afterFlush (fuel : Nat) (ih : MachineInv P fuel) :
           · rename_i hcan
             have ha := hc.encodeAfterAlloc w.sess (fun cap fill => encodePublishWithOffset cap
               { topic := r.topic, packetId := some w.sess.alloc.2, props := r.props, retain := r.retain,
-                qos := qos, dup := false } r.payload fill) h
+                qos := qos, dup := false } r.payload fill) (EncOk_encodePublish _ _) h
             split
             · simpa using ha
             · split
@@ -445,7 +452,8 @@ theorem step_afterFlush (fuel : Nat) (ih : MachineInv P fuel) :
                 · simpa using ha
                 · rename_i s3 hs3
                   apply i1
-                  refine hc.enqueue w.sess _ _ _ true s3 h ?_ hs3
+                  rename_i _ off len hres _ _
+                  refine hc.enqueue w.sess _ _ _ true s3 (EncOk_encodePublish _ _) h ?_ hres hs3
                   intro _
                   have hq : qos ≠ 0 := by omega
                   have hcp : canPublishS w.sess.alloc.1.data w.sess.alloc.1.rt qos = true := by
@@ -458,7 +466,8 @@ theorem step_afterFlush (fuel : Nat) (ih : MachineInv P fuel) :
         split
         · simpa using h
         · have ha := hc.encodeScratch w.sess (fun cap fill => encodePublishWithOffset cap
-            { topic := r.topic, packetId := none, props := r.props, retain := r.retain, qos := 0, dup := false } r.payload fill) h
+            { topic := r.topic, packetId := none, props := r.props, retain := r.retain, qos := 0, dup := false } r.payload fill)
+            (EncOk_encodePublish _ _) h
           split
           · simpa using ha
           · split
